@@ -22,8 +22,11 @@ CHECKS = {
           'Brzozowski derivative vectors and state sets) with vm_compute; its soundness (C02_checker_sound) and the lifting from the '
           'minterm alphabet to all Unicode scalar values (C02_all_strings) are proved once for all automata and patterns. The empty '
           'word and registered classes are per-dump checks with generic theorems. Strings are unbounded; the set of programs is sampled, '
-          'as the property quantifies.',
-  'design_ref': 'DESIGN.md section 7, C02',
+          'as the property quantifies. GENERIC growth, proved: C02_compile_mode_correct — for every list of supported pattern ASTs the Gallina '
+          'transcription of the whole compiler (Thompson construction nfa.rs, multi-pattern closure construction multi_pattern_nfa.rs/compiled_dfa.rs, '
+          'minimizer.rs) yields an automaton accepting exactly the pattern languages for every non-empty word, never the empty word, without panic; '
+          'that transcription is compared on every run with the automata the implementation compiled (state for state).',
+  'design_ref': 'DESIGN.md section 7, C02 and section 11',
   'note': 'Trusted: Coq kernel + vm_compute; the minterm partition of all 1,112,064 scalar values computed by the Rust harness from '
           'the implementation\'s class predicate and from one-pattern scanners of every leaf; Python translation of dumps and ASTs to '
           'Coq terms; hooks; regex_syntax parser outside the model.',
@@ -111,5 +114,17 @@ CHECKS = {
   'design_ref': 'DESIGN.md section 7, C14',
   'note': 'Trusted: as C13; the thread schedules actually exercised are those the OS produces; no memory-model reasoning.',
   'technique': 'Rocq proof of the locking protocol + source-fact obligations + multi-threaded stress run (observed)',
+ },
+ 'C09': {
+  'text': 'Coq theorems over the iterator model with a ghost frontier F (furthest cursor position reached): invariant LInv (the line vector is sorted, contains only true line starts and every true line start below F; last_char is the character before the cursor or 0 after exhaustion) holds initially and is preserved by every operation of every history whose resets go to already scanned offsets; hence position(o) = (1 + number of \\n before o, byte column) for every o < F and for o = F unless F is a not yet recorded line start (then the column after the line break on the line of the break), and every MatchExt has the exact start position and an end position of one of the two allowed forms; after exhaustion every offset is exact. Tie: differential correspondence on WithPositions histories plus an independent position oracle computed from the input text.',
+  'design_ref': 'DESIGN.md section 7, C09',
+  'note': "Trusted: Coq kernel + vm_compute; Python translators/differ/oracle; harness and hooks. Domain: resets only to already scanned offsets (the property's quantifier; a forward reset beyond the frontier gives wrong line numbers, recorded as Example C09_ex_forward_reset). Columns are byte columns.",
+  'technique': 'Rocq proof (invariant with ghost frontier, by induction over histories) + differential correspondence + independent oracle',
+ },
+ 'C16': {
+  'text': "Coq theorems about a model of the serde/serde_json layout of scnr's types: parse_config (print_config cfg) = Some cfg for every configuration (also with the 64/32-bit ranges), the same for Match, MatchExt, Span, Position, injectivity of the printer, the README text parses to the expected configuration. This is a theorem about the MODEL of a library layout; the tie to the real derives is checked on every run: serde_json::to_string is compared character for character with print_config evaluated in Coq, the model reader is run on the REAL serde text, from_str(to_string(x)) == x is asserted in Rust, hand-written layout variants and malformed texts are compared between serde and the model reader, and the scanners built before and after the round trip are compared on dumps and token streams.",
+  'design_ref': 'DESIGN.md section 7, C16',
+  'note': 'Trusted: Coq kernel + vm_compute; serde, serde_derive, serde_json are modelled, not verified; UTF-8 encoding outside the model; Python variant writer; harness.',
+  'technique': 'Rocq proof (printer/parser round trip of the modelled layout) + byte-for-byte differential against serde_json',
  },
 }
